@@ -530,6 +530,13 @@ func exhaustiveC15(thorough bool, emit func(C15Case) bool) {
 		long := gen.B(bytes.Repeat([]byte("ab"), n/2+1)[:n])
 		h := []TrieOp{{Op: "add", S: long}, {Op: "add", S: append(bytes.Clone(long[:n-1]), 'z')}, {Op: "add", S: append(bytes.Clone(long[:n/2]), 'y', 'y')},
 			{Op: "add", S: append(bytes.Clone(long), 'q', 'r')}, {Op: "del", S: long[:n-1]}, {Op: "add", S: gen.B("b")}}
+		if n >= 1000 {
+			// read-sized keys: a shorter history (every observation is quadratic in the key length)
+			if !emit(C15Case{Alphabet: gen.B("ab"), Ops: h[:3]}) {
+				return
+			}
+			continue
+		}
 		if !emit(C15Case{Alphabet: gen.B("ab"), Ops: h}) || !emit(C15Case{Alphabet: gen.B("ab"), Ops: h, Rebuild: true}) {
 			return
 		}
